@@ -374,6 +374,9 @@ pub fn gen_c01(cx: &mut Ctx) {
     for e in shared_exprs().into_iter().chain(shaped_exprs()) {
         conv_chain(cx, "C01", &Val::E(e), 2, true);
     }
+    for e in clause_exprs(&mut cx.rng) {
+        conv_chain(cx, "C01", &Val::E(e), 1, true);
+    }
     let pool = pool_names();
     let n_random = cx.scale * if cx.thorough { 20000 } else { 1500 };
     for _ in 0..n_random {
@@ -428,6 +431,19 @@ pub fn gen_c02(cx: &mut Ctx) {
                 let d = cx.rng.coin();
                 cx.emit("C02", "eval", &[Arg::F(x.clone()), Arg::V(v.clone()), Arg::O(d)], true);
                 cx.emit("C02", "evalc", &[Arg::F(x.clone()), Arg::V(v)], true);
+            }
+        }
+    }
+    // the table and diagram forms of an expression, as the crate's conversions build them
+    {
+        let exprs: Vec<E> = wide_exprs(&mut cx.rng, &names(&["a", "b", "c"]), true).into_iter().chain(shared_exprs()).chain(shaped_exprs()).chain(clause_exprs(&mut cx.rng)).collect();
+        for e in exprs {
+            for kind in ["T", "B"] {
+                for _ in 0..3 {
+                    let v = cx.rng.pick(&assignments).clone();
+                    let d = cx.rng.coin();
+                    cx.emit("C02", "eval.of", &[Arg::F(Val::E(e.clone())), Arg::A(kind.to_string()), Arg::V(v), Arg::O(d)], true);
+                }
             }
         }
     }
@@ -721,6 +737,44 @@ pub fn shared_exprs() -> Vec<E> {
         (x.clone() ^ y.clone()) ^ (x.clone().iff(t.clone())),
         not(t.clone()).iff(t.clone()),
     ]
+}
+
+/// DNF- and CNF-shaped expressions whose clauses repeat a variable, in the same or in the opposite
+/// polarity, at every pair of positions (a clause-at-once fast path must notice `x … !x` wherever the
+/// two occurrences stand): every 3-literal clause over {a, !a, b, !b}, alone, next to a literal and
+/// next to another clause; plus longer random clauses
+pub fn clause_exprs(rng: &mut Rng) -> Vec<E> {
+    let (a, b, c, d) = (lit("a"), lit("b"), lit("c"), lit("d"));
+    let lits = [a.clone(), not(a.clone()), b.clone(), not(b.clone())];
+    let mut out = vec![];
+    for i in 0..4 {
+        for j in 0..4 {
+            for k in 0..4 {
+                let clause = vec![lits[i].clone(), lits[j].clone(), lits[k].clone()];
+                for dual in [false, true] {
+                    let inner = |xs: Vec<E>| if dual { or(xs) } else { and(xs) };
+                    let outer = |xs: Vec<E>| if dual { and(xs) } else { or(xs) };
+                    out.push(inner(clause.clone()));
+                    out.push(outer(vec![inner(clause.clone()), c.clone()]));
+                    out.push(outer(vec![inner(clause.clone()), inner(vec![c.clone(), d.clone()])]));
+                    out.push(outer(vec![inner(vec![c.clone(), not(d.clone())]), inner(clause.clone())]));
+                }
+            }
+        }
+    }
+    let vars = [a, b, c, d, lit("e")];
+    for _ in 0..200 {
+        let dual = rng.coin();
+        let n_clauses = 1 + rng.below(4);
+        let mut clauses = vec![];
+        for _ in 0..n_clauses {
+            let len = 2 + rng.below(8);
+            let clause: Vec<E> = (0..len).map(|_| { let v = rng.pick(&vars).clone(); if rng.coin() { v } else { not(v) } }).collect();
+            clauses.push(if dual { or(clause) } else { and(clause) });
+        }
+        out.push(if dual { and(clauses) } else { or(clauses) });
+    }
+    out
 }
 
 /// expression shapes the minterm families never contain: stacked negations, constants, one-operand
